@@ -155,6 +155,7 @@ impl Stats {
                 choices: vi["choices"].as_array().map(|a| a.iter().filter_map(|x| x.as_u64()).map(|x| x as u32).collect()).unwrap_or_default(),
                 log: vec![],
                 log_json: vi["log"].as_array().cloned().unwrap_or_default(),
+                shared: vec![],
             }).collect()).unwrap_or_default(),
             digests: set("digests"),
             digests_interleaved: set("digests_interleaved"),
@@ -173,6 +174,8 @@ pub struct Violation {
     pub log: Vec<Ev>,
     /// the log tail as received from a worker
     pub log_json: Vec<Value>,
+    /// the shared-location set of the private-location reduction the execution ran with
+    pub shared: Vec<(u32, u32)>,
 }
 
 #[derive(Clone, Debug)]
@@ -224,9 +227,11 @@ pub fn hash_choices(c: &[u32]) -> u64 {
 pub fn write_replay_json(property: &str, scenario: &str, dir: &str, choices: &[u32], message: &str, tail: &[Value], cost: u32) -> String {
     let _ = std::fs::create_dir_all(dir);
     let path = format!("{}/{}-{}-{:016x}.json", dir, property, scenario.replace(|c: char| !c.is_ascii_alphanumeric(), "_"), hash_choices(choices));
+    let shared: Vec<Value> = sched::SHARED_KEYS.lock().map(|g| g.iter().map(|k| json!([k.0, k.1])).collect()).unwrap_or_default();
     let v = json!({
         "property": property, "scenario": scenario, "engine": "sigsched", "choices": choices,
         "deviations": cost, "message": message,
+        "shared_locations": shared,
         "log_format": "[step, thread, handler_depth, tag, a, b]", "log_tail": tail,
     });
     let _ = std::fs::write(&path, serde_json::to_string_pretty(&v).unwrap());
@@ -274,7 +279,7 @@ fn record_violation(out: &Outcome, st: &mut Stats) {
     };
     if better {
         st.violations.retain(|v| class_of(&v.message) != class);
-        st.violations.push(Violation { property: c.property.clone(), scenario: c.scenario.clone(), message: msg, replay: String::new(), cost, choices, log: out.log.clone(), log_json: vec![] });
+        st.violations.push(Violation { property: c.property.clone(), scenario: c.scenario.clone(), message: msg, replay: String::new(), cost, choices, log: out.log.clone(), log_json: vec![], shared: vec![] });
     }
 }
 
@@ -567,12 +572,12 @@ fn interpret(results: Vec<ChildResult>, cfg: &Config, scenario: &str, stats: &mu
         if r.hung {
             let msg = "execution hung: a thread is blocked in a call the scheduler cannot see (blocking syscall or unhooked wait) while holding the run token".to_string();
             let path = write_replay(&cfg.property, scenario, &replay_dir(), &r.last_choices, &msg, &[], 0);
-            violations.push(Violation { property: cfg.property.clone(), scenario: scenario.to_string(), message: msg, replay: path, cost: 0, choices: r.last_choices.clone(), log: vec![], log_json: vec![] });
+            violations.push(Violation { property: cfg.property.clone(), scenario: scenario.to_string(), message: msg, replay: path, cost: 0, choices: r.last_choices.clone(), log: vec![], log_json: vec![], shared: vec![] });
         } else if !exited {
             let sig = libc::WTERMSIG(r.status);
             let msg = format!("process died by signal {} during an execution (abort/crash inside library code or a signal handler frame, e.g. a panic crossing the handler)", sig);
             let path = write_replay(&cfg.property, scenario, &replay_dir(), &r.last_choices, &msg, &[], 0);
-            violations.push(Violation { property: cfg.property.clone(), scenario: scenario.to_string(), message: msg, replay: path, cost: 0, choices: r.last_choices.clone(), log: vec![], log_json: vec![] });
+            violations.push(Violation { property: cfg.property.clone(), scenario: scenario.to_string(), message: msg, replay: path, cost: 0, choices: r.last_choices.clone(), log: vec![], log_json: vec![], shared: vec![] });
         } else if code != 0 {
             return Err(format!("worker exited with status {} (machinery failure); output: {}", code, r.output.chars().take(400).collect::<String>()));
         }
@@ -754,7 +759,9 @@ fn explore_once(r: &dyn Runnable, cfg: &Config) -> Result<Summary, String> {
     });
     let _ = &mut seen;
     seen.insert(0u8);
+    let shared_now: Vec<(u32, u32)> = sched::SHARED_KEYS.lock().map(|g| g.clone()).unwrap_or_default();
     for v in violations.iter_mut() {
+        v.shared = shared_now.clone();
         if v.replay.is_empty() {
             v.replay = write_replay_json(&cfg.property, &name, &replay_dir(), &v.choices, &v.message, &v.log_json, v.cost);
         }
